@@ -88,3 +88,5 @@ Definition v_max (a b : val) : val :=
 (* unsigned subtraction where it does not underflow (Rust panics where it would) *)
 Definition v_sub (a b : val) : val :=
   match a, b with VN x, VN y => VN (x - y) | _, _ => VStuck end.
+(* the items an iterator yields *)
+Definition v_items (v : val) : list val := match v with VC _ l => l | _ => [] end.
